@@ -65,17 +65,34 @@ pub fn current_case() -> String {
 /// bits, ephemeral scalar 0, a scalar candidate above the group order, ...).  The prefix is chosen by the stream NAME
 /// (`...#zero64`, `...#ones32`, `...#zero96`), so that every place that re-creates the stream gets the same bytes.
 pub struct PrefixRng {
-    prefix: Vec<u8>,
+    /// bytes laid over the stream: (absolute offset, bytes)
+    overlays: Vec<(usize, Vec<u8>)>,
     pos: usize,
     inner: ChaCha20Rng,
 }
+/// the secp256k1 group order, big-endian (a 32-byte draw equal to it is not a canonical scalar, and reduces to 0)
+pub const K256_ORDER_BE: [u8; 32] = [
+    0xFF, 0xFF, 0xFF, 0xFF, 0xFF, 0xFF, 0xFF, 0xFF, 0xFF, 0xFF, 0xFF, 0xFF, 0xFF, 0xFF, 0xFF, 0xFE, 0xBA, 0xAE, 0xDC, 0xE6, 0xAF, 0x48, 0xA0, 0x3B,
+    0xBF, 0xD2, 0x5E, 0x8C, 0xD0, 0x36, 0x41, 0x41,
+];
+/// Tags after '#' in the stream name, separated by '+': `zeroN` / `onesN` (N bytes at offset 0), `zeroN@OFF`, `onesN@OFF`,
+/// `orderK@OFF` (K copies of the group order at byte offset OFF).
 pub fn tape_rng(seed: u64, stream: &str) -> PrefixRng {
-    let mut prefix = vec![];
-    if let Some((_, tag)) = stream.rsplit_once('#') {
-        let (byte, n) = if let Some(n) = tag.strip_prefix("zero") { (0u8, n) } else if let Some(n) = tag.strip_prefix("ones") { (0xffu8, n) } else { (0, "0") };
-        prefix = vec![byte; n.parse().unwrap_or(0)];
+    let mut overlays = vec![];
+    if let Some((_, tags)) = stream.rsplit_once('#') {
+        for tag in tags.split('+') {
+            let (body, off) = match tag.split_once('@') { Some((b, o)) => (b, o.parse().unwrap_or(0)), None => (tag, 0usize) };
+            if let Some(n) = body.strip_prefix("zero") {
+                overlays.push((off, vec![0u8; n.parse().unwrap_or(0)]));
+            } else if let Some(n) = body.strip_prefix("ones") {
+                overlays.push((off, vec![0xffu8; n.parse().unwrap_or(0)]));
+            } else if let Some(n) = body.strip_prefix("order") {
+                let k: usize = n.parse().unwrap_or(1);
+                overlays.push((off, K256_ORDER_BE.iter().cycle().take(32 * k).cloned().collect()));
+            }
+        }
     }
-    PrefixRng { prefix, pos: 0, inner: rng(seed, stream) }
+    PrefixRng { overlays, pos: 0, inner: rng(seed, stream) }
 }
 impl rand::RngCore for PrefixRng {
     fn next_u32(&mut self) -> u32 {
@@ -92,9 +109,14 @@ impl rand::RngCore for PrefixRng {
         // the inner generator is always advanced by the full request (its own control flow must not depend on the prefix:
         // the C18 counter comparison sees it), then the prefix bytes are laid over the result
         self.inner.fill_bytes(dest);
-        let k = (self.prefix.len() - self.pos).min(dest.len());
-        dest[..k].copy_from_slice(&self.prefix[self.pos..self.pos + k]);
-        self.pos += k;
+        let (a, b) = (self.pos, self.pos + dest.len());
+        for (off, bytes) in &self.overlays {
+            let (lo, hi) = ((*off).max(a), (off + bytes.len()).min(b));
+            if lo < hi {
+                dest[lo - a..hi - a].copy_from_slice(&bytes[lo - off..hi - off]);
+            }
+        }
+        self.pos = b;
     }
     fn try_fill_bytes(&mut self, dest: &mut [u8]) -> Result<(), rand::Error> {
         self.fill_bytes(dest);
